@@ -178,6 +178,12 @@ P_ReadBack == up' /\ stored' = stored /\ obs'.k = "ok" /\ obs'.same /\ obs'.got 
 (* Whatever arrives - malformed envelopes of the table above or well-formed *)
 (* requests with missing sub-messages / unexpected ids (`shape`) - the      *)
 (* server stays up and the stream's log is untouched.                       *)
+(* Request shapes of the propagate subject (PropagatedRequest): 0 empty,    *)
+(* 1..13 Op = shape without any sub-message, 14 CreateStreamOp without      *)
+(* Stream, 15 empty ShrinkISROp, 16..136 Op = X carrying the (empty)        *)
+(* sub-message of operation Y for every pair (X, Y) of the 11 operations    *)
+(* (matched and MISMATCHED).  The other subjects use shape modulo 2 / 4.    *)
+NumShapes == 16 + 11 * 11
 InternalHandlers == {"propagate", "serverinfo", "partstatus", "notify", "replreq", "leaderoffset"}
 
 DoInternal(h, i, pbOK, shape) ==
